@@ -3,4 +3,5 @@ CONSTANT MaxRem = 20
 CONSTANT FieldMax = 36
 CONSTANT LOff = {}
 INVARIANTS TypeOK Safe IndInv
+PROPERTIES ProgressProp
 CHECK_DEADLOCK FALSE
